@@ -113,7 +113,7 @@ def _case(draw):
     c, cls, pairs = draw(_contract())
     return {"c": c, "numclass": cls, "pairs": pairs,
             "route": draw(st.sampled_from(["machine-dict", "machine-file", "strings", "strings", "human-file"])),
-            "cname": draw(st.sampled_from(["c1", "my contract", "x"]))}
+            "cname": draw(st.sampled_from(["c1", "my contract", "x"])), "pre": draw(st.sampled_from(["none", "none", "none", "print-then-rename"]))}
 
 
 def strategy(tier):
@@ -155,6 +155,15 @@ def run_case(case):
     s0, con = env.call("construct", env.C, c, False)
     if s0 != "ok":
         return {"viol": None, "nontrivial": False, "labels": labels + ["construction-refused"], "outcome": "construction-refused"}
+    if case.get("pre") == "print-then-rename":
+        # multi-step: the contract is printed, then a variable is renamed (fresh name), and the renamed contract is serialised
+        con.to_dict()
+        str(con)
+        v0 = (c["i"] + c["o"])[0]
+        s1, con2 = env.call("rename_variables", con.rename_variables, [(v0, "r_n")])
+        if s1 == "ok":
+            con = con2
+            labels.append("pre:print-then-rename")
     d0 = env.c_data(con)
     names = sorted(set(d0["i"] + d0["o"]))
     nontrivial = len(d0["a"]) + len(d0["g"]) >= 2
